@@ -229,6 +229,20 @@ class Project:
 
         return dict(DEFAULT_IDENTITY, major=self.major, minor=self.minor, product_name=self.product_name)
 
+    def clone(self):
+        """A copy with its own tag memory (types are shared, they are immutable)."""
+        q = Project(self.name, self.major, self.minor, self.product_name, self.controller_name)
+        q.types = self.types
+        q._next_id = self._next_id
+
+        def cp(t):
+            n = TagDef(t.name, t.typ, t.dims, t.instance_id, t.scope, t.access, t.alias, t.kind, t._symbol_type, t.bool_bit)
+            n.data[:] = t.data
+            return n
+        q.symbols = [cp(t) for t in self.symbols]
+        q.programs = {k: [cp(t) for t in v] for k, v in self.programs.items()}
+        return q
+
     # ---- memory images
     def snapshot(self):
         return {t.full_name: bytes(t.data) for t in self.all_tags()}
